@@ -30,5 +30,6 @@ func TestVerifReplay(t *testing.T) {
 	}()
 	zzVerifEntry()
 	vAllocCheck()
+	zzDumpObs()
 	fmt.Println("VERIF-REPLAY-OK")
 }
